@@ -3,7 +3,7 @@ import BbRe.Drivers.Util
 /-! Line-protocol driver of the NFSv4 replay models (C19).
 
 NFSv4.1 ops (`41 ...`):
-* `41 cfg <maxOps> <nslots> <legacy 0|1>`                      -> `ok` (also resets)
+* `41 cfg <maxOps> <nslots> <legacy 0|1> <legacyJoin 0|1>`                      -> `ok` (also resets)
 * `41 exch <client> <ver> <obs>`                              -> `inc <k> <confirmed 0|1> <seq>`
 * `41 cs <inc> <seq>`                                         -> `created <sid>` | `cached <sid>` | `cached-misordered` | `misordered` | `stale` | `delay`
 * `41 destroy <sid>`                                          -> `ok` | `badsession`
@@ -34,10 +34,10 @@ def b01 : String → Option Bool
 
 def step (s : State) (ws : List String) : State × String :=
   match ws with
-  | ["cfg", a, b, c] =>
-    match a.toNat?, b.toNat?, b01 c with
-    | some a, some b, some c => (init a b c, "ok")
-    | _, _, _ => (s, "bad-op")
+  | ["cfg", a, b, c, d] =>
+    match a.toNat?, b.toNat?, b01 c, b01 d with
+    | some a, some b, some c, some d => (init a b c d, "ok")
+    | _, _, _, _ => (s, "bad-op")
   | ["exch", c, v, o] =>
     match c.toNat?, v.toNat?, o.toNat? with
     | some c, some v, some o =>
